@@ -50,6 +50,10 @@ THEOREMS = [
     "Typedpy.C03.refCall_facts",
     "Typedpy.C03.delitem_skips_hook",
     "Typedpy.C03.nested_depth2_example",
+    "Typedpy.C03.fixed_nested_bound_today",
+    "Typedpy.C03.fixed_delitem_hook_today",
+    "Typedpy.C03.fixed_full_statement_current",
+    "Typedpy.C03.fixed_hook_invariant_current",
 ]
 RULE = ("mutable (and field-immutable) classes biased to Array/Deque/Map fields incl. nested typed wrappers; start "
         "instance valid; histories of <=6 (quick) / <=20 (thorough) ops drawn from setattr(valid|invalid|None), del, "
